@@ -142,118 +142,126 @@ func TestVerifC29(t *testing.T) {
 			q := qs[qi]
 			for _, bm25 := range []bool{false, true} {
 				for _, chunk := range []bool{false, true} {
-					caseID := fmt.Sprintf("%s|bm25=%v chunk=%v|%s", s.name, bm25, chunk, gen.Key(q))
-					if !r.Want(caseID) {
-						continue
-					}
-					bad := func(kind, format string, a ...any) {
-						r.Violation(kind+": "+caseID, fmt.Sprintf("%s\nquery %s\n%s", caseID, q, fmt.Sprintf(format, a...)), map[string]any{"case": caseID})
-					}
-					run := func(debug bool) *zoekt.SearchResult {
-						o := zoekt.SearchOptions{ShardMaxMatchCount: 1 << 30, TotalMaxMatchCount: 1 << 30, UseBM25Scoring: bm25, ChunkMatches: chunk, DebugScore: debug}
-						res, err := s.ds.Search(ctx, q, &o)
-						r.Eval(1)
-						if err != nil {
-							bad("search failed", "%v", err)
-							return nil
+					// display limit: none / configured but never reached (collectSender's ranking must not depend
+					// on whether truncation was needed). A limit that is reached is C22's subject: which file
+					// ends up third then depends on shard arrival order (known finding of C22).
+					for _, disp := range []int{0, 1000} {
+						caseID := fmt.Sprintf("%s|bm25=%v chunk=%v|%s", s.name, bm25, chunk, gen.Key(q))
+						if disp != 0 {
+							caseID = fmt.Sprintf("%s|bm25=%v chunk=%v maxdocs=%d|%s", s.name, bm25, chunk, disp, gen.Key(q))
 						}
-						return res
-					}
-					seq := func(res *zoekt.SearchResult) (scores []float64, byFile map[string]string) {
-						byFile = map[string]string{}
-						for _, f := range res.Files {
-							scores = append(scores, f.Score)
-							var ms []string
+						if !r.Want(caseID) {
+							continue
+						}
+						bad := func(kind, format string, a ...any) {
+							r.Violation(kind+": "+caseID, fmt.Sprintf("%s\nquery %s\n%s", caseID, q, fmt.Sprintf(format, a...)), map[string]any{"case": caseID})
+						}
+						run := func(debug bool) *zoekt.SearchResult {
+							o := zoekt.SearchOptions{ShardMaxMatchCount: 1 << 30, TotalMaxMatchCount: 1 << 30, UseBM25Scoring: bm25, ChunkMatches: chunk, DebugScore: debug, MaxDocDisplayCount: disp}
+							res, err := s.ds.Search(ctx, q, &o)
+							r.Eval(1)
+							if err != nil {
+								bad("search failed", "%v", err)
+								return nil
+							}
+							return res
+						}
+						seq := func(res *zoekt.SearchResult) (scores []float64, byFile map[string]string) {
+							byFile = map[string]string{}
+							for _, f := range res.Files {
+								scores = append(scores, f.Score)
+								var ms []string
+								for _, m := range f.LineMatches {
+									ms = append(ms, fmt.Sprintf("L%d=%v", m.LineNumber, m.Score))
+								}
+								for _, m := range f.ChunkMatches {
+									ms = append(ms, fmt.Sprintf("C%d=%v", m.ContentStart.ByteOffset, m.Score))
+								}
+								byFile[f.Repository+"/"+f.FileName] = fmt.Sprintf("%v %v", f.Score, ms)
+							}
+							return
+						}
+						base := run(false)
+						if base == nil {
+							continue
+						}
+						bs, bf := seq(base)
+						// finite, ordered
+						for i, f := range base.Files {
+							if math.IsNaN(f.Score) || math.IsInf(f.Score, 0) {
+								bad("non-finite score", "file %s score %v", f.FileName, f.Score)
+							}
+							prev := math.Inf(1)
 							for _, m := range f.LineMatches {
-								ms = append(ms, fmt.Sprintf("L%d=%v", m.LineNumber, m.Score))
+								if math.IsNaN(m.Score) || math.IsInf(m.Score, 0) {
+									bad("non-finite score", "file %s line %d score %v", f.FileName, m.LineNumber, m.Score)
+								}
+								if m.Score > prev {
+									bad("matches not ordered by score", "file %s: line match score %v after %v", f.FileName, m.Score, prev)
+								}
+								prev = m.Score
 							}
+							prev = math.Inf(1)
 							for _, m := range f.ChunkMatches {
-								ms = append(ms, fmt.Sprintf("C%d=%v", m.ContentStart.ByteOffset, m.Score))
+								if math.IsNaN(m.Score) || math.IsInf(m.Score, 0) {
+									bad("non-finite score", "file %s chunk score %v", f.FileName, m.Score)
+								}
+								if m.Score > prev {
+									bad("matches not ordered by score", "file %s: chunk score %v after %v", f.FileName, m.Score, prev)
+								}
+								prev = m.Score
 							}
-							byFile[f.Repository+"/"+f.FileName] = fmt.Sprintf("%v %v", f.Score, ms)
+							_ = i
 						}
-						return
-					}
-					base := run(false)
-					if base == nil {
-						continue
-					}
-					bs, bf := seq(base)
-					// finite, ordered
-					for i, f := range base.Files {
-						if math.IsNaN(f.Score) || math.IsInf(f.Score, 0) {
-							bad("non-finite score", "file %s score %v", f.FileName, f.Score)
-						}
-						prev := math.Inf(1)
-						for _, m := range f.LineMatches {
-							if math.IsNaN(m.Score) || math.IsInf(m.Score, 0) {
-								bad("non-finite score", "file %s line %d score %v", f.FileName, m.LineNumber, m.Score)
+						// files non-increasing except the documented promotion into third place
+						rest := append([]zoekt.FileMatch{}, base.Files...)
+						if len(rest) > 3 && rest[2].Score < rest[3].Score {
+							p := rest[2]
+							e := path.Ext(p.FileName)
+							if e == path.Ext(rest[0].FileName) || e == path.Ext(rest[1].FileName) {
+								bad("promotion without novel extension", "third file %s (score %v) precedes %s (score %v) but its extension is already in the top two", p.FileName, p.Score, rest[3].FileName, rest[3].Score)
 							}
-							if m.Score > prev {
-								bad("matches not ordered by score", "file %s: line match score %v after %v", f.FileName, m.Score, prev)
+							if p.Score < 0.9*rest[3].Score {
+								bad("promotion of a much lower score", "third file %s score %v < 0.9 × %v", p.FileName, p.Score, rest[3].Score)
 							}
-							prev = m.Score
+							rest = append(rest[:2:2], rest[3:]...)
 						}
-						prev = math.Inf(1)
-						for _, m := range f.ChunkMatches {
-							if math.IsNaN(m.Score) || math.IsInf(m.Score, 0) {
-								bad("non-finite score", "file %s chunk score %v", f.FileName, m.Score)
+						for i := 1; i < len(rest); i++ {
+							if rest[i].Score > rest[i-1].Score {
+								bad("files not ordered by score", "file %s (score %v) after %s (score %v)", rest[i].FileName, rest[i].Score, rest[i-1].FileName, rest[i-1].Score)
+								break
 							}
-							if m.Score > prev {
-								bad("matches not ordered by score", "file %s: chunk score %v after %v", f.FileName, m.Score, prev)
+						}
+						// debug on == off
+						if dbg := run(true); dbg != nil {
+							ds, df := seq(dbg)
+							if fmt.Sprint(ds) != fmt.Sprint(bs) || fmt.Sprint(df) != fmt.Sprint(bf) {
+								bad("debug scoring changes scores or order", "scores without debug %v\nwith debug          %v", bs, ds)
 							}
-							prev = m.Score
 						}
-						_ = i
-					}
-					// files non-increasing except the documented promotion into third place
-					rest := append([]zoekt.FileMatch{}, base.Files...)
-					if len(rest) > 3 && rest[2].Score < rest[3].Score {
-						p := rest[2]
-						e := path.Ext(p.FileName)
-						if e == path.Ext(rest[0].FileName) || e == path.Ext(rest[1].FileName) {
-							bad("promotion without novel extension", "third file %s (score %v) precedes %s (score %v) but its extension is already in the top two", p.FileName, p.Score, rest[3].FileName, rest[3].Score)
+						// repetition (witness search over runtime map order)
+						for rep := 0; rep < 6; rep++ {
+							again := run(false)
+							if again == nil {
+								break
+							}
+							as, af := seq(again)
+							if fmt.Sprint(as) != fmt.Sprint(bs) || fmt.Sprint(af) != fmt.Sprint(bf) {
+								bad("ranking not deterministic", "run 1 scores %v\nrun %d scores %v\nfiles1 %v\nfiles%d %v", bs, rep+2, as, bf, rep+2, af)
+								break
+							}
 						}
-						if p.Score < 0.9*rest[3].Score {
-							bad("promotion of a much lower score", "third file %s score %v < 0.9 × %v", p.FileName, p.Score, rest[3].Score)
+						if len(base.Files) > 3 {
+							r.Nontrivial(caseID)
 						}
-						rest = append(rest[:2:2], rest[3:]...)
-					}
-					for i := 1; i < len(rest); i++ {
-						if rest[i].Score > rest[i-1].Score {
-							bad("files not ordered by score", "file %s (score %v) after %s (score %v)", rest[i].FileName, rest[i].Score, rest[i-1].FileName, rest[i-1].Score)
-							break
+						if qi == 0 {
+							r.Sample(map[string]any{"case": caseID, "scores": bs})
 						}
-					}
-					// debug on == off
-					if dbg := run(true); dbg != nil {
-						ds, df := seq(dbg)
-						if fmt.Sprint(ds) != fmt.Sprint(bs) || fmt.Sprint(df) != fmt.Sprint(bf) {
-							bad("debug scoring changes scores or order", "scores without debug %v\nwith debug          %v", bs, ds)
-						}
-					}
-					// repetition (witness search over runtime map order)
-					for rep := 0; rep < 6; rep++ {
-						again := run(false)
-						if again == nil {
-							break
-						}
-						as, af := seq(again)
-						if fmt.Sprint(as) != fmt.Sprint(bs) || fmt.Sprint(af) != fmt.Sprint(bf) {
-							bad("ranking not deterministic", "run 1 scores %v\nrun %d scores %v\nfiles1 %v\nfiles%d %v", bs, rep+2, as, bf, rep+2, af)
-							break
-						}
-					}
-					if len(base.Files) > 3 {
-						r.Nontrivial(caseID)
-					}
-					if qi == 0 {
-						r.Sample(map[string]any{"case": caseID, "scores": bs})
 					}
 				}
 			}
 		})
 	}
 	r.Assume("repeat-run determinism is a witness search over runtime map iteration order (8 runs per case), not an enumeration")
-	r.Finish("case = (1 shard | 3 shards | compound+simple) × 19 queries (single/multi atom, boosts, symbols, regexps, filters) × {default, BM25} × {line, chunk}; per case: scores finite, matches non-increasing, files non-increasing except the documented third-place promotion (novel extension, >= 0.9 of the displaced score), debug on == off, 7 repetitions identical; non-trivial = more than 3 files returned")
+	r.Finish("case = (1 shard | 3 shards | compound+simple) × 19 queries (single/multi atom, boosts, symbols, regexps, filters) × {default, BM25} × {line, chunk} × MaxDocDisplayCount {none, 1000 (never reached)}; per case: scores finite, matches non-increasing, files non-increasing except the documented third-place promotion (novel extension, >= 0.9 of the displaced score), debug on == off, 7 repetitions identical; non-trivial = more than 3 files returned")
 }
